@@ -237,7 +237,7 @@ def _paragraph(rng):
             parts.append(rng.choice(_WORDS))
         else:
             parts.append(_break_atoms(rng, _inline_template(rng), rng.choice([0.0, 0.15, 0.4])))
-        parts.append(rng.choice([b" ", b" ", b"", b"\n"]))
+        parts.append(rng.choice([b" ", b" ", b" ", b"", b"", b"\n", b"\n", b"  \n", b"  \t\n", b" \t \n", b"\t  \n", b"   \n", b"\\\n", b"\t\n"]))
     return b"".join(parts).rstrip(b"\n ") + b"\n"
 
 
@@ -263,7 +263,7 @@ def _block(rng, depth):
     if r < 0.75:
         f = rng.choice([b"```", b"~~~", b"````", b"~~~~"])
         body = b"".join(rng.choice([b"x\n", b"\n", b"  y\n", b"```\n", b"~~~\n", b"<b>\n", b"\tz\n"]) for _ in range(rng.randrange(4)))
-        return rng.choice([b"", b" ", b"   "]) + f + rng.choice([b"", b" go", b"go x", b" \\*", b" &#32;", b"&nbsp;", b" &Tab; x", b" a&amp;b", b" \\ ", b"&#x20;", b" go\xc2\xa0", b"\xc3\xa0", b" x \xe3\x81\xa0 ", b"\xc2\xa0", b"\x0c", b" \x0b", "\u2003".encode(), b"&Tab;", b" &nbsp; "]) + b"\n" + body + (rng.choice([b"", b"  "]) + f + rng.choice([b"", b"`", b" ", b" x"]) + b"\n" if rng.random() < 0.7 else b"")
+        return rng.choice([b"", b" ", b"   "]) + f + rng.choice([b" C:\\temp\\dir extra", b" tex\\a", b"a\\b\\*c", b" w&amp;\\q x", b" x\\", b"", b" go", b"go x", b" \\*", b" &#32;", b"&nbsp;", b" &Tab; x", b" a&amp;b", b" \\ ", b"&#x20;", b" go\xc2\xa0", b"\xc3\xa0", b" x \xe3\x81\xa0 ", b"\xc2\xa0", b"\x0c", b" \x0b", "\u2003".encode(), b"&Tab;", b" &nbsp; "]) + b"\n" + body + (rng.choice([b"", b"  "]) + f + rng.choice([b"", b"`", b" ", b" x"]) + b"\n" if rng.random() < 0.7 else b"")
     if r < 0.80:
         return b"".join(rng.choice([b"    ", b"\t", b"     ", b"  \t"]) + rng.choice([b"code", b"- x", b"> y", b"<b>", b"", b"\x0c", b"\x0b", b"\xc2\xa0", b"\xc2\x85", "\u2003".encode(), b"a"]) + b"\n" for _ in range(1 + rng.randrange(3)))
     if r < 0.86:
